@@ -41,6 +41,12 @@ class Collector(object):
         self.label = label
 
     def __call__(self, data):
+        if self.ep.cfg.get('keeping_stream'):
+            # a stream that keeps the mapping it is handed and looks at it
+            # later (circus' own QueueStream does): every call must hand
+            # over a mapping of its own
+            self.ep.records.append((self.ep.world.sim.seq, self.label, data))
+            return
         self.ep.records.append((self.ep.world.sim.seq, self.label,
                                 data.get('pid'), data.get('name'),
                                 bytes(data.get('data'))))
@@ -321,7 +327,12 @@ class C17Episode(Episode):
     # -------------------------------------------------------------- oracle
     def received(self):
         out = {}
-        for (seq, label, pid, name, data) in self.records:
+        for rec in self.records:
+            if len(rec) == 3:
+                d = rec[2]
+                rec = (rec[0], rec[1], d.get('pid'), d.get('name'),
+                       bytes(d.get('data')))
+            (seq, label, pid, name, data) = rec
             out.setdefault((pid, name), []).append((label, data))
         return out
 
@@ -778,6 +789,9 @@ class C17(Prop):
             cfg['high_fds'] = True
         elif rng.random() < 0.05:
             cfg['stdin_closed'] = True
+        if rng.random() < 0.3:
+            # streams that keep the mapping they are handed (QueueStream)
+            cfg['keeping_stream'] = True
         cfg['max_steps'] = 300000
         cfg['step_cost'] = rng.choice([0.0, 0.0, 1e-4, 1e-3, 5e-3])
         cfg['check_delay'] = rng.choice([0.3, 1.0, 5.0])
